@@ -43,6 +43,8 @@ type Node struct {
 	// ReadKids (replica): explicit readBackends; may share nodes with Kids.
 	ReadKids []*Node `json:"readKids,omitempty"`
 	NoRemove bool    `json:"noRemove,omitempty"` // sim leaf without remove / cond without remove target / overlay without deleted
+	// ShortPages (sim): see SimStore.ShortPages
+	ShortPages int `json:"shortPages,omitempty"`
 	// Gate (files): width of the new-file gate (localdisk derives one from
 	// the descriptor limit; 0 = none, as files.NewStorage leaves it)
 	Gate        int `json:"gate,omitempty"`
@@ -292,7 +294,7 @@ func (w *World) kid(n *Node, i int) string { return prefixOf(n.Kids[i].Name) }
 func (w *World) construct(n *Node, g *Gen) (blobserver.Storage, error) {
 	switch n.Type {
 	case "sim":
-		return &SimStore{Env: w.Env, G: g, St: w.Store(n.Name), NoRemove: n.NoRemove}, nil
+		return &SimStore{Env: w.Env, G: g, St: w.Store(n.Name), NoRemove: n.NoRemove, ShortPages: n.ShortPages}, nil
 	case "memory":
 		// process memory: contents do not survive a restart by design; the
 		// engines never restart compositions containing it as a leaf.
